@@ -50,6 +50,8 @@ def run(case):
         if any(x['cls'] != a['cls'] for x in w):
             nt = True
             break
+    if getattr(H, 'rate2_busy', False):
+        viol = []          # the rate changed in mid busy period: no verdict from this run (see sched.parse)
     viol += sched.twin_check(r, case, ID, stats)
     res = {'viol': viol, 'digest': digest_of(r.w.log), 'nontrivial': nt, 'stats': stats,
            'simtime': float(r.w.env.now), 'steps': r.w.steps}
